@@ -6,6 +6,7 @@ from pyvc.task import Task
 
 # pool call sites the argument was made for: (function, pool method) -> how its results are collected
 KNOWN_SITES = {
+    ("amr_kitchen.plotfile_cooker.pool_imap", "imap"): "ordered iterator re-yielded in order by the generator that owns the pool (both box iterators)",
     ("amr_kitchen.plotfile_cooker.LevelDataIterator.__init__", "imap"): "ordered: per-file lists chained in submission order",
     ("amr_kitchen.plotfile_cooker.LevelDataStream.__getitem__", "map"): "ordered: list in requested box order",
     ("amr_kitchen.plotfile_cooker.LevelDataStream.iter", "imap"): "ordered iterator in requested box order",
@@ -136,6 +137,45 @@ class PoolSites(Task):
                         if isinstance(a, ast.Attribute) and a.attr in ("map", "imap"):
                             bad.append((fq, n.lineno))
         ctx.oblige("collection: ordered results are not re-ordered before they are paired with the task list", not bad, "P", note=str(bad))
+        # lifetime (pool contract, CPython 3.12, observed on this code): the results of imap / imap_unordered arrive lazily; a pool
+        # that nothing but that iterator references is finalised from one of its own handler threads when every result is
+        # back before the task handler reports the task count (always for an empty task list), and next() then blocks for
+        # ever.  So: never a temporary Pool().imap(...), and an imap iterator that leaves the function (returned, stored in an
+        # attribute) must not come from a plain local pool - a with-block of a generator or an attribute has to hold the pool.
+        dead = []
+        for mq, m in repo.modules.items():
+            if mq.endswith("mandoline_bias_cut"):
+                continue
+            for fq, fdef in enclosing_functions(m.tree, mq):
+                parent = {}
+                for a in ast.walk(fdef):
+                    for c in ast.iter_child_nodes(a):
+                        parent[id(c)] = a
+                inner = {id(x) for d in ast.walk(fdef) if d is not fdef and isinstance(d, (ast.FunctionDef, ast.Lambda)) for x in ast.walk(d)}
+                with_bound = {it.optional_vars.id for w in ast.walk(fdef) if isinstance(w, ast.With) for it in w.items
+                              if isinstance(it.optional_vars, ast.Name)}
+                for n in ast.walk(fdef):
+                    if id(n) in inner or not (isinstance(n, ast.Call) and isinstance(n.func, ast.Attribute) and
+                                              n.func.attr in ("imap", "imap_unordered", "uimap")):
+                        continue
+                    tgt = n.func.value
+                    if isinstance(tgt, ast.Call):
+                        dead.append((fq, n.lineno, "temporary pool"))
+                        continue
+                    if not (isinstance(tgt, ast.Name) and "pool" in tgt.id.lower()):
+                        continue        # an attribute (self.pool) keeps its pool as long as the object lives
+                    if tgt.id in with_bound:
+                        continue
+                    # a plain local: fine while the function itself consumes the iterator, not when the iterator leaves it
+                    st = n
+                    while id(st) in parent and not isinstance(st, ast.stmt):
+                        st = parent[id(st)]
+                    leaves = isinstance(st, ast.Return) or \
+                        (isinstance(st, ast.Assign) and any(isinstance(t, ast.Attribute) for t in st.targets))
+                    if leaves:
+                        dead.append((fq, n.lineno, f"iterator leaves the function, pool '{tgt.id}' is a plain local"))
+        ctx.oblige("lifetime: the pool behind every lazily consumed result stays referenced until the iteration is over", not dead, "P",
+                   note=str(dead))
 
 
 def pool_tasks(prop):
